@@ -229,6 +229,8 @@ pub fn assemble<S>(
             assembly.defs.as_mut().unwrap(),
             opts.max_iterations)?);
 
+        report.stop_at_errors()?;
+
         output::check_bank_overlap(
             report,
             assembly.decls.as_ref().unwrap(),
